@@ -7,13 +7,25 @@ Bo(b) == [t |-> "bool", v |-> b]
 S(s) == [t |-> "str", v |-> s]
 L(xs) == [t |-> "list", v |-> xs]
 Tu(xs) == [t |-> "tuple", v |-> xs]
-Fl(n) == [t |-> "flt", v |-> n]        \* a float whose value is the integer n
+Fl(q) == [t |-> "flt", v |-> q]        \* the float q / 4 (quarters: every value and every specified result is a dyadic rational, exact in binary floating point)
 Err == [t |-> "err"]
 Unspec == [t |-> "unspec"]
 Big == 1000000
 IsNum(x) == x.t \in {"int", "bool"}
 Num(x) == IF x.t = "bool" THEN (IF x.v THEN 1 ELSE 0) ELSE x.v
 IsSeq(x) == x.t \in {"str", "list", "tuple"}
+Q4(x) == IF x.t = "flt" THEN x.v ELSE 4 * Num(x)            \* a number in quarters
+FMod(x, y) == x - y * (x \div y)                            \* floor-mod for any non-zero y (TLC's \div floors)
+Zeroish(r, x, y) == r = 0 /\ (x < 0 \/ y < 0)               \* a zero that Python may sign as -0.0: left unspecified
+FloatBin(op, a, b) ==
+  LET x == Q4(a)  y == Q4(b) IN
+  CASE op = "+" -> Fl(x + y)
+    [] op = "-" -> Fl(x - y)
+    [] op = "*" -> IF FMod(x * y, 4) # 0 \/ Zeroish(x * y, x, y) THEN Unspec ELSE Fl((x * y) \div 4)
+    [] op = "/" -> IF y = 0 THEN Err ELSE IF FMod(4 * x, y) # 0 \/ Zeroish(x, x, y) THEN Unspec ELSE Fl((4 * x) \div y)
+    [] op = "//" -> IF y = 0 THEN Err ELSE IF Zeroish(x \div y, x, y) THEN Unspec ELSE Fl(4 * (x \div y))
+    [] op = "%" -> IF y = 0 THEN Err ELSE IF Zeroish(FMod(x, y), x, y) THEN Unspec ELSE Fl(FMod(x, y))
+    [] OTHER -> Unspec
 Guard(n) == IF n > Big \/ n < -Big THEN Unspec ELSE I(n)
 Truthy(x) == CASE x.t = "int" -> x.v # 0 [] x.t = "bool" -> x.v [] x.t = "flt" -> x.v # 0
                [] x.t = "str" -> x.v # "" [] x.t \in {"list", "tuple"} -> x.v # <<>>
@@ -27,13 +39,14 @@ Repeat(x, n) == IF n > 8 THEN Unspec ELSE IF x.t = "str" THEN S(RepStr(x.v, n)) 
 Bin(op, a, b) ==
   IF a.t = "err" THEN Err ELSE IF a.t = "unspec" THEN Unspec
   ELSE IF b.t = "err" THEN Err ELSE IF b.t = "unspec" THEN Unspec
-  ELSE IF a.t = "flt" \/ b.t = "flt" THEN Unspec
+  ELSE IF (a.t = "flt" /\ (IsNum(b) \/ b.t = "flt")) \/ (b.t = "flt" /\ IsNum(a)) THEN FloatBin(op, a, b)
+  ELSE IF a.t = "flt" \/ b.t = "flt" THEN (IF op = "*" /\ (IsSeq(a) \/ IsSeq(b)) THEN Err ELSE IF op \in {"+", "-", "*", "/", "//", "%", "**"} THEN Err ELSE Unspec)
   ELSE IF IsNum(a) /\ IsNum(b) THEN
        LET x == Num(a)  y == Num(b) IN
        CASE op = "+" -> Guard(x + y) [] op = "-" -> Guard(x - y) [] op = "*" -> Guard(x * y)
          [] op = "//" -> IF y = 0 THEN Err ELSE I(x \div y)
          [] op = "%"  -> IF y = 0 THEN Err ELSE I(x - y * (x \div y))
-         [] op = "/"  -> IF y = 0 THEN Err ELSE IF x - y * (x \div y) = 0 THEN Fl(x \div y) ELSE Unspec
+         [] op = "/"  -> IF y = 0 THEN Err ELSE IF FMod(4 * x, y) # 0 \/ Zeroish(x, x, y) THEN Unspec ELSE Fl((4 * x) \div y)
          [] op = "**" -> IF y >= 0 THEN (IF y > 12 THEN Unspec ELSE Guard(Pow(x, y))) ELSE IF x = 0 THEN Err ELSE Unspec
   ELSE IF op = "+" /\ a.t = b.t /\ IsSeq(a) THEN (IF a.t = "str" THEN S(a.v \o b.v) ELSE [t |-> a.t, v |-> a.v \o b.v])
   ELSE IF op = "*" /\ IsSeq(a) /\ IsNum(b) THEN Repeat(a, Num(b))
@@ -43,12 +56,12 @@ Bin(op, a, b) ==
 Un(op, a) ==
   IF a.t \in {"err", "unspec"} THEN a
   ELSE IF op = "not" THEN Bo(~Truthy(a))
-  ELSE IF a.t = "flt" THEN Unspec
+  ELSE IF a.t = "flt" THEN (IF a.v = 0 THEN Unspec ELSE IF op = "neg" THEN Fl(0 - a.v) ELSE a)
   ELSE IF IsNum(a) THEN (IF op = "neg" THEN I(0 - Num(a)) ELSE I(Num(a)))
   ELSE Err
 RECURSIVE PyEq(_, _)
 PyEq(a, b) ==
-  IF (IsNum(a) \/ a.t = "flt") /\ (IsNum(b) \/ b.t = "flt") THEN Num(a) = Num(b)
+  IF (IsNum(a) \/ a.t = "flt") /\ (IsNum(b) \/ b.t = "flt") THEN Q4(a) = Q4(b)
   ELSE IF a.t = "str" /\ b.t = "str" THEN a.v = b.v
   ELSE IF a.t = b.t /\ a.t \in {"list", "tuple"} THEN Len(a.v) = Len(b.v) /\ \A i \in 1..Len(a.v) : PyEq(a.v[i], b.v[i])
   ELSE FALSE
@@ -61,7 +74,7 @@ Cmp(op, a, b) ==   \* "t" / "f" / "err" / "unspec"
   IF op = "==" THEN (IF PyEq(a, b) THEN "t" ELSE "f")
   ELSE IF op = "!=" THEN (IF PyEq(a, b) THEN "f" ELSE "t")
   ELSE IF (IsNum(a) \/ a.t = "flt") /\ (IsNum(b) \/ b.t = "flt") THEN
-       LET x == Num(a)  y == Num(b)
+       LET x == Q4(a)  y == Q4(b)
            r == CASE op = "<" -> x < y [] op = "<=" -> x <= y [] op = ">" -> x > y [] op = ">=" -> x >= y
        IN IF r THEN "t" ELSE "f"
   ELSE IF a.t = "str" /\ b.t = "str" THEN
@@ -80,13 +93,14 @@ Call(f, args, kw) ==   \* args: sequence of values; kw: sequence of <<name, valu
   ELSE IF \E i \in 1..Len(kw) : kw[i][2].t = "err" THEN Err
   ELSE IF (\E i \in 1..Len(args) : args[i].t = "unspec") \/ (\E i \in 1..Len(kw) : kw[i][2].t = "unspec") THEN Unspec
   ELSE LET n == Len(args)  a == IF n >= 1 THEN args[1] ELSE Err  b == IF n >= 2 THEN args[2] ELSE Err IN
-  CASE f = "abs" -> IF kw # <<>> \/ n # 1 THEN Err ELSE IF a.t = "flt" THEN Unspec ELSE IF IsNum(a) THEN I(IF Num(a) < 0 THEN 0 - Num(a) ELSE Num(a)) ELSE Err
+  CASE f = "abs" -> IF kw # <<>> \/ n # 1 THEN Err ELSE IF a.t = "flt" THEN Fl(IF a.v < 0 THEN 0 - a.v ELSE a.v) ELSE IF IsNum(a) THEN I(IF Num(a) < 0 THEN 0 - Num(a) ELSE Num(a)) ELSE Err
     [] f = "len" -> IF kw # <<>> \/ n # 1 THEN Err ELSE IF IsSeq(a) THEN I(Len(a.v)) ELSE Err
     [] f = "bool" -> IF kw # <<>> \/ n > 1 THEN Err ELSE IF n = 0 THEN Bo(FALSE) ELSE Bo(Truthy(a))
     [] f = "int" ->
          IF n = 0 /\ kw = <<>> THEN I(0)
          ELSE IF n = 1 /\ kw = <<>> THEN
-              (IF IsNum(a) \/ a.t = "flt" THEN I(Num(a)) ELSE IF a.t = "str" THEN (IF DigitsVal(a.v, 10) >= 0 THEN I(DigitsVal(a.v, 10)) ELSE Err) ELSE Err)
+              (IF IsNum(a) THEN I(Num(a)) ELSE IF a.t = "flt" THEN I(IF a.v >= 0 THEN a.v \div 4 ELSE 0 - ((0 - a.v) \div 4))      \* int() truncates towards zero
+               ELSE IF a.t = "str" THEN (IF DigitsVal(a.v, 10) >= 0 THEN I(DigitsVal(a.v, 10)) ELSE Err) ELSE Err)
          ELSE IF (n = 2 /\ kw = <<>>) \/ (n = 1 /\ Len(kw) = 1 /\ kw[1][1] = "base") THEN
               LET bs == IF n = 2 THEN b ELSE kw[1][2] IN
               IF ~IsNum(bs) THEN Err
@@ -102,7 +116,10 @@ Call(f, args, kw) ==   \* args: sequence of values; kw: sequence of <<name, valu
               IF d = "err" THEN Err ELSE IF d = "unspec" THEN Unspec ELSE IF d = "t" THEN b ELSE a
          ELSE IF n = 1 THEN (IF a.t \in {"list", "tuple", "str"} THEN Unspec ELSE Err) ELSE IF n = 0 THEN Err ELSE Unspec
     [] f = "round" ->
-         IF n = 1 /\ kw = <<>> THEN (IF IsNum(a) THEN I(Num(a)) ELSE IF a.t = "flt" THEN I(Num(a)) ELSE Err)
+         IF n = 1 /\ kw = <<>> THEN (IF IsNum(a) THEN I(Num(a))
+                                      ELSE IF a.t = "flt" THEN LET fl == a.v \div 4  rem == FMod(a.v, 4) IN       \* round half to even
+                                                               I(IF rem < 2 THEN fl ELSE IF rem > 2 THEN fl + 1 ELSE IF FMod(fl, 2) = 0 THEN fl ELSE fl + 1)
+                                      ELSE Err)
          ELSE IF (n = 2 /\ kw = <<>>) \/ (n = 1 /\ Len(kw) = 1 /\ kw[1][1] = "ndigits") THEN
               LET nd == IF n = 2 THEN b ELSE kw[1][2] IN
               IF ~IsNum(a) THEN (IF a.t = "flt" THEN Unspec ELSE Err)
@@ -161,7 +178,19 @@ Mid == {e \in D1 : e.k \in {"bin", "bool", "cmp", "list"} /\ (e.k = "bin" => e.o
                    /\ (e.k = "list" => e.xs = <<>> \/ (e.xs[1] \in Small /\ e.xs[2] \in Small))}
 Chains == {[k |-> "cmp", ops |-> <<o1, o2>>, xs |-> <<a, b, c>>] : o1 \in {"<", "==", ">="}, o2 \in {"<", "!=", "<="}, a \in Small, b \in Small \cup {K(I(1))}, c \in Small \cup {K(I(3))}}
 Ifs == {[k |-> "if", c |-> c, a |-> a, b |-> b] : c \in Small \cup {K(I(-1)), K(S(""))}, a \in Small, b \in {K(I(3)), [k |-> "bin", op |-> "//", l |-> K(I(1)), r |-> K(I(0))]}}
-Programs == Leaves \cup D1 \cup Chains \cup Ifs
+(* floats: every arithmetic / comparison / unary / conversion form over a float and a number *)
+FLeaves == {K(Fl(-30)), K(Fl(30)), K(Fl(8)), K(Fl(-8)), K(Fl(2)), K(Fl(9)), K(Fl(0)), K(Fl(10)), K(Fl(-10))}       \* -7.5 7.5 2.0 -2.0 0.5 2.25 0.0 2.5 -2.5
+NLeaves == {K(I(-7)), K(I(-2)), K(I(0)), K(I(2)), K(I(3)), K(Bo(TRUE))}
+Floats == {[k |-> "bin", op |-> o, l |-> a, r |-> b] : o \in BinOps, a \in FLeaves, b \in FLeaves \cup NLeaves}
+          \cup {[k |-> "bin", op |-> o, l |-> a, r |-> b] : o \in BinOps, a \in NLeaves, b \in FLeaves}
+          \cup {[k |-> "bin", op |-> o, l |-> a, r |-> b] : o \in {"/", "//", "%"}, a \in NLeaves, b \in NLeaves}
+          \cup {[k |-> "cmp", ops |-> <<o>>, xs |-> <<a, b>>] : o \in CmpOps, a \in FLeaves, b \in FLeaves \cup NLeaves}
+          \cup {[k |-> "un", op |-> o, x |-> a] : o \in {"neg", "pos", "not"}, a \in FLeaves}
+          \cup {[k |-> "call", f |-> f, args |-> <<a>>, kw |-> <<>>] : f \in {"abs", "int", "round", "bool"}, a \in FLeaves}
+          \cup {[k |-> "call", f |-> f, args |-> <<a, b>>, kw |-> <<>>] : f \in {"min", "max"}, a \in FLeaves, b \in FLeaves \cup NLeaves}
+          \cup {[k |-> "bool", op |-> o, xs |-> <<a, b>>] : o \in {"and", "or"}, a \in FLeaves, b \in NLeaves}
+          \cup {[k |-> "bin", op |-> "+", l |-> [k |-> "bin", op |-> "*", l |-> a, r |-> b], r |-> c] : a \in {K(Fl(2)), K(Fl(-30))}, b \in {K(I(3)), K(Fl(8))}, c \in {K(Fl(9)), K(I(-2))}}
+Programs == Leaves \cup D1 \cup Chains \cup Ifs \cup FLeaves \cup Floats
 (* a second level: every form over a few leaves and a few depth-1 programs *)
 MidS == {[k |-> "bin", op |-> "+", l |-> K(I(2)), r |-> K(I(2))], [k |-> "bin", op |-> "//", l |-> K(I(2)), r |-> K(I(0))],
          [k |-> "bin", op |-> "*", l |-> K(S("a")), r |-> K(I(2))], [k |-> "bool", op |-> "and", xs |-> <<K(I(2)), K(I(0))>>],
